@@ -299,11 +299,25 @@ def model_of(real, parent=None):
     return m
 
 
+def _fresh(v):
+    """a literal in a query is a different object from the equal value inside the tree (it was typed by the
+    user, the tree was parsed from a file): never hand the library the very same number / string object"""
+    if isinstance(v, bool) or v is None:
+        return v
+    if isinstance(v, float):
+        return float(repr(v))
+    if isinstance(v, int):
+        return int(str(v))
+    if isinstance(v, str):
+        return "".join(list(v)) if v else v
+    return v
+
+
 def build_level(Q, lv):
     def one(p, position):
         k = p[0]
         if k == "lit":
-            return p[1]
+            return _fresh(p[1])
         if k == "none":
             return None
         if k == "pred":
@@ -324,7 +338,7 @@ def build_entryq(Q, q):
     k = q[0]
     if k in ("any", "all"):
         p = q[1]
-        inner = p[1] if p[0] == "lit" else (bexpr_build(Q, p[1]) if p[0] == "pred" else _fn(p[1]))
+        inner = _fresh(p[1]) if p[0] == "lit" else (bexpr_build(Q, p[1]) if p[0] == "pred" else _fn(p[1]))
         return Q.any_(inner) if k == "any" else Q.all_(inner)
     if k == "enot":
         return ~build_entryq(Q, q[1])
@@ -521,7 +535,7 @@ def check_bool(case):
 # strategies
 # =================================================================================================
 
-NAMES = ["a", "b", "Ab", "c", "ab"]
+NAMES = ["a", "b", "Ab", "c", "ab", 2.5]   # a numeric name: from_dict builds them from numeric YAML/JSON keys (ints would be index access in [])
 ATTRS = ["x", "X1", "y", "ab", "A", 1, 2, 10, 0, ""]   # 0 and "" : falsy literals are ordinary attribute values
 _STRS = ["a", "A", "b", "x", "X", "ab", "1", "y", ""]
 
@@ -611,8 +625,9 @@ def _copy(t):
 _docs = st.binary(min_size=90, max_size=260).map(_decode_docs)
 
 _dscalar = st.sampled_from(ATTRS)
-_dict = st.recursive(st.dictionaries(st.sampled_from(NAMES), st.one_of(_dscalar, st.lists(_dscalar, max_size=3)), max_size=4),
-                     lambda ch: st.dictionaries(st.sampled_from(NAMES), st.one_of(_dscalar, ch, st.lists(ch, max_size=3),
+_SNAMES = [n for n in NAMES if isinstance(n, str)]      # (dict keys of a JSON case have to be strings)
+_dict = st.recursive(st.dictionaries(st.sampled_from(_SNAMES), st.one_of(_dscalar, st.lists(_dscalar, max_size=3)), max_size=4),
+                     lambda ch: st.dictionaries(st.sampled_from(_SNAMES), st.one_of(_dscalar, ch, st.lists(ch, max_size=3),
                                                                                  st.lists(_dscalar, max_size=3)), max_size=4),
                      max_leaves=8)
 
